@@ -718,9 +718,9 @@ func c03AllMaps(rng *rand.Rand, al c03Alpha) []string {
 }
 
 func c03Gen(tier string, rng *rand.Rand, emit func(string)) map[string]interface{} {
-	maxLen, pairLen, catLen, nRandom := 4, 3, 2, 6000
+	maxLen, pairLen, catLen, nRandom := 4, 3, 2, 60000
 	if tier == "thorough" {
-		maxLen, pairLen, catLen, nRandom = 5, 4, 2, 120000
+		maxLen, pairLen, catLen, nRandom = 5, 4, 3, 1500000
 	}
 	count := map[string]int{}
 	out := func(helper, ty string, args ...string) {
